@@ -19,7 +19,7 @@ fn ts(d: &NaiveDateTime) -> f64 {
 fn node_sets() -> Vec<Vec<(NaiveDateTime, f64)>> {
     let base = ndt(2000, 1, 1);
     let mut out = Vec::new();
-    for n in 2..=9usize {
+    for n in [2usize, 3, 4, 5, 6, 7, 8, 9, 13, 24] {
         let mut v = Vec::new();
         let mut d = base;
         for i in 0..n {
@@ -71,6 +71,24 @@ fn build<T: CurveInterpolation>(nodes: &[(NaiveDateTime, f64)], interp: T, order
     CurveDF::try_new(Nodes::F64(m), interp, "crv", Convention::Act360, Modifier::ModF, Some(100.0), NamedCal::try_new("all").unwrap()).unwrap()
 }
 
+/// the same nodes supplied as first- / second-order numbers (each node its own variable), in the given order
+fn build_ad<T: CurveInterpolation>(nodes: &[(NaiveDateTime, f64)], interp: T, order: &[usize], second: bool) -> CurveDF<T, NamedCal> {
+    let n = if second {
+        let mut m = IndexMap::new();
+        for &j in order {
+            m.insert(nodes[j].0, rateslib::dual::Dual2::new(nodes[j].1, vec![format!("u{}", j)]));
+        }
+        Nodes::Dual2(m)
+    } else {
+        let mut m = IndexMap::new();
+        for &j in order {
+            m.insert(nodes[j].0, Dual::new(nodes[j].1, vec![format!("u{}", j)]));
+        }
+        Nodes::Dual(m)
+    };
+    CurveDF::try_new(n, interp, "crv", Convention::Act360, Modifier::ModF, Some(100.0), NamedCal::try_new("all").unwrap()).unwrap()
+}
+
 fn queries(nodes: &[(NaiveDateTime, f64)]) -> Vec<NaiveDateTime> {
     let mut q = vec![nodes[0].0 - Days::new(400), nodes[0].0 - Days::new(1), nodes[nodes.len() - 1].0 + Days::new(1), nodes[nodes.len() - 1].0 + Days::new(700)];
     for w in nodes.windows(2) {
@@ -111,6 +129,25 @@ fn check_kind<T: CurveInterpolation + Clone>(func: &str, kind: &str, interp: T) 
                     Err(_) => {
                         report("probe", func, &format!("{} curve, {} nodes, value at {}", kind, n, q.date()), "PANIC", &format!("{}", exp), false);
                         return true;
+                    }
+                }
+            }
+            // nodes supplied as dual numbers, in the same order
+            for second in [false, true] {
+                let c = build_ad(&nodes, interp.clone(), order, second);
+                for q in queries(&nodes) {
+                    let exp = oracle(kind, &nodes, &q);
+                    let got = panic::catch_unwind(panic::AssertUnwindSafe(|| val(&c.interpolated_value(&q))));
+                    match got {
+                        Ok(g) if close(g, exp) => {}
+                        Ok(g) => {
+                            report("probe", func, &format!("{} curve, {} {} nodes supplied in order {:?}, value at {}", kind, n, if second { "Dual2" } else { "Dual" }, order, q.date()), &format!("{}", g), &format!("{}", exp), false);
+                            return true;
+                        }
+                        Err(_) => {
+                            report("probe", func, &format!("{} curve, {} {} nodes supplied in order {:?}, value at {}", kind, n, if second { "Dual2" } else { "Dual" }, order, q.date()), "PANIC", &format!("{}", exp), false);
+                            return true;
+                        }
                     }
                 }
             }
@@ -186,7 +223,8 @@ fn check_names() -> Option<(String, String, String)> {
 pub fn probe(func: &str) -> bool {
     let known = ["index_left", "index_left_i64", "interpolated_value", "node_index", "set_ad_order", "index_value", "keys", "first_key",
                  "linear_interp_f64", "linear_interp_dual", "linear_interp_dual2", "log_linear_interp_f64", "log_linear_interp_dual",
-                 "log_linear_interp_dual2", "linear_zero_interp_f64", "linear_zero_interp_dual", "linear_zero_interp_dual2", "ad"];
+                 "log_linear_interp_dual2", "linear_zero_interp_f64", "linear_zero_interp_dual", "linear_zero_interp_dual2", "ad",
+                 "try_new", "from", "sort_keys", "get_variable_tags"];
     if !known.contains(&func) {
         return false;
     }
